@@ -652,5 +652,19 @@ def r17_12(ctx):
                  "definition's node for that option", f.loc(a)) if not_implied else ctx.ok(construct, f.loc(a)))
 
 
+def r17_13(ctx):
+    """R17.13 what is listed is what is visible *now*: MenuConfigState._visible() computes its answer from the node and the current
+    values on every call; it neither reads nor writes remembered answers on the instance (a memo that is cleared in one refresh
+    path is stale in another: a row that a load just hid is still listed, and the next index lookup raises ValueError)."""
+    repo = ctx.repo
+    f = repo.func(f"{MODEL}:MenuConfigState._visible")
+    ctx.analysed(f.qual)
+    construct = "MenuConfigState._visible/computed from the node and current values, no remembered answers"
+    attrs = sorted({n.attr for n in ast.walk(f.node) if isinstance(n, ast.Attribute) and isinstance(n.value, ast.Name) and n.value.id == "self"} - {"show_all", "kconf"})
+    stores = [n for n in ast.walk(f.node) if isinstance(n, (ast.Subscript, ast.Attribute)) and isinstance(n.ctx, ast.Store) and "self." in ast.unparse(n)]
+    (ctx.bad(construct, f"_visible() uses instance state {attrs}{' and writes ' + ast.unparse(stores[0]) if stores else ''}: its answer can be older than the "
+             "configuration", f.loc(stores[0] if stores else f.node)) if attrs or stores else ctx.ok(construct, f.loc()))
+
+
 def rules():
-    return [("R17.12", r17_12, 1), ("R17.11", r17_11, 2), ("R17.10", r17_10, 3), ("R17.9", r17_9, 2), ("R17.8", r17_8, 6), ("R17.7", r17_7, 5), ("R17.1", r17_1, 6), ("R17.5", r17_5, 4), ("R17.2", r17_2, 13), ("R17.3", r17_3, 4), ("R17.4", r17_4, 6), ("R17.6", r17_6, 3)]
+    return [("R17.13", r17_13, 1), ("R17.12", r17_12, 1), ("R17.11", r17_11, 2), ("R17.10", r17_10, 3), ("R17.9", r17_9, 2), ("R17.8", r17_8, 6), ("R17.7", r17_7, 5), ("R17.1", r17_1, 6), ("R17.5", r17_5, 4), ("R17.2", r17_2, 13), ("R17.3", r17_3, 4), ("R17.4", r17_4, 6), ("R17.6", r17_6, 3)]
